@@ -35,6 +35,7 @@ def make_world(plan):
     if "lat" in c:
         w.net.lat_lo, w.net.lat_hi = c["lat"]
     w.net.chunk_mode = c.get("chunk", "random")
+    w.net.coalesce_eof = bool(c.get("coalesce_eof", False))
     if c.get("const_latency") is not None:
         w.net.const_latency = c["const_latency"]
     cl.service_time = c.get("service_time", 0.0005)
@@ -64,6 +65,11 @@ def make_world(plan):
         cl.groups.initial_delay = c["initial_rebalance_delay"]
     FaultEngine(w, plan.get("faults", []))
     return w, cl
+
+
+# properties with a progress clause: a client that spins at one virtual instant can never
+# meet it ("within bounded time", "delivery continues", "converges", "terminates")
+LIVENESS_PROPS = {"C02", "C03", "C04", "C06", "C07", "C08", "C13", "C16", "C19"}
 
 
 class RunResult(dict):
@@ -98,6 +104,17 @@ def run(plan, world, main, *, extra=None):
     except L.StepLimit as exc:
         status = "steplimit"
         detail = {"msg": str(exc), "spin": world.loop.spin_trace[-40:], "stacks": _task_stacks(world)}
+        owners = [o for o in world.loop.spin_owners[-40:]]
+        client = sorted({o for o in owners if o != "sim"})
+        if "at t=" in str(exc) and client and plan.get("prop") in LIVENESS_PROPS \
+                and sum(1 for o in owners if o != "sim") >= len(owners) // 2:
+            # the client's own tasks wake each other for ever without the clock being
+            # able to advance: a livelock of the client, not a fault of the harness
+            status = "spin"
+            world.violation(plan["prop"], "client_busy_spin_without_progress", {
+                "owners": client, "t": world.now() - world.t0,
+                "callbacks": sorted(set(world.loop.spin_trace[-40:]))[:6],
+                "faults": dict(world.fault_counts)})
     except L.HarnessError as exc:
         status = "harness_error"
         detail = repr(exc)
